@@ -32,7 +32,7 @@ static json op_j(const Op &o) {
 #define F(name) if (o.name != d.name) j[#name] = o.name;
     F(slot) F(fact) F(equil) F(colperm) F(trans) F(refine) F(symmode) F(pivgrowth) F(condnum)
     F(rowperm) F(droprule) F(ilunorm) F(milu) F(lwork) F(align) F(wsgarbage) F(nrhs) F(ldpad) F(rhs_seed)
-    F(storage) F(mat) F(reader) F(vchange) F(permc_seed) F(stages) F(handle)
+    F(storage) F(mat) F(reader) F(rsym) F(rbase0) F(rfmt) F(vchange) F(permc_seed) F(stages) F(handle)
 #undef F
     if (o.thresh != d.thresh) j["thresh"] = hexf(o.thresh);
     if (o.droptol != d.droptol) j["droptol"] = hexf(o.droptol);
@@ -47,7 +47,7 @@ static Op op_u(const json &j) {
 #define F(name) if (j.contains(#name)) o.name = j[#name].get<decltype(o.name)>();
     F(slot) F(fact) F(equil) F(colperm) F(trans) F(refine) F(symmode) F(pivgrowth) F(condnum)
     F(rowperm) F(droprule) F(ilunorm) F(milu) F(lwork) F(align) F(wsgarbage) F(nrhs) F(ldpad) F(rhs_seed)
-    F(storage) F(mat) F(reader) F(vchange) F(permc_seed) F(stages) F(handle)
+    F(storage) F(mat) F(reader) F(rsym) F(rbase0) F(rfmt) F(vchange) F(permc_seed) F(stages) F(handle)
 #undef F
     if (j.contains("thresh")) o.thresh = unhexf(j["thresh"]);
     if (j.contains("droptol")) o.droptol = unhexf(j["droptol"]);
